@@ -43,6 +43,8 @@ type c35State struct {
 	hist    []byte
 	fresh   bool                 // no write since the node was (re)built
 	pending []int                // replayed events not executed yet (see c35Step)
+	jump    uint64               // synthetic: counter value set right before the first write (0 = none)
+	jumped  bool
 	lastTx  *crypto.Hash         // transaction of the most recent write on chain A or B
 	onC     map[crypto.Hash]bool // transactions already carried by a snapshot of chain C
 }
@@ -78,6 +80,18 @@ func c35GenesisRef() []c35Rec {
 // reopen, in memory otherwise (a real on-disk Badger open is ~20x dearer).
 func c35New(int) *c35State {
 	return &c35State{fresh: true, onC: map[crypto.Hash]bool{}, ref: c35GenesisRef()}
+}
+
+// c35JumpTo is the synthetic counter value of the second exploration: the
+// node's in-memory sequence is set to it right before the first write, so that
+// the following positions are 65534, 65535, 65536, 65537 (a 2-byte boundary of
+// the big-endian position key) and the stored positions are not contiguous.
+const c35JumpTo = 65533
+
+func c35NewJump(int) *c35State {
+	s := c35New(0)
+	s.jump = c35JumpTo
+	return s
 }
 
 func (s *c35State) open(disk bool) {
@@ -130,7 +144,7 @@ func c35Step(s *c35State, e int, replaying bool, report func(key, desc string)) 
 }
 
 func c35Key(s *c35State) string {
-	return fmt.Sprintf("%s|fresh=%v|broken=%v", s.hist, s.fresh, s.broken)
+	return fmt.Sprintf("%s|fresh=%v|broken=%v|jump=%d", s.hist, s.fresh, s.broken, s.jump)
 }
 
 func (s *c35State) maxPos() uint64 {
@@ -196,6 +210,12 @@ func c35Apply(s *c35State, e int, replaying bool, report func(key, desc string))
 		s.hist = append(s.hist, "ABC"[e])
 		s.fresh = false
 		var topo *common.SnapshotWithTopologicalOrder
+		if s.jump != 0 && !s.jumped {
+			s.jumped = true
+			s.m.Node.TopoCounter.Lock()
+			s.m.Node.TopoCounter.seq = s.jump // synthetic jump of the local counter
+			s.m.Node.TopoCounter.Unlock()
+		}
 		before := s.m.Node.TopologicalOrder()
 		if p := verifmc.Catch(func() { topo = s.m.Node.TopoWrite(snap, signers) }); p != nil {
 			report("topowrite-failed", fmt.Sprintf("TopoWrite of a well-formed snapshot on chain %c failed with counter %d (stored maximum %d): %v", "ABC"[e], before, s.maxPos(), p))
@@ -242,7 +262,11 @@ var c35Counts = []uint64{0, 1, 2, 500, 501}
 
 func c35Offsets(ref []c35Rec) []uint64 {
 	last := ref[len(ref)-1].Pos
-	return []uint64{0, 1, ref[len(ref)/2].Pos, last, last + 1, ^uint64(0)}
+	offs := []uint64{0, 1, ref[len(ref)/2].Pos, last, last + 1, ^uint64(0)}
+	if last > 60000 { // synthetic jump: offsets around the gap and the 65536 boundary
+		offs = append(offs, 8, 65528, 65534, 65535, 65536)
+	}
+	return offs
 }
 
 // c35Queries evaluates the full query menu against the reference slice.
@@ -396,7 +420,7 @@ func TestMC_C35(t *testing.T) {
 		Apply: func(s *c35State, e int, replaying bool, report func(key, desc string)) bool {
 			ok := c35Step(s, e, replaying, report)
 			if ok && !replaying && s.m != nil {
-				n := int64(len(c35Counts)*6 + 3 + len(s.ref) + 1 + 1) // listings + with-transactions + lookups + unknown + raw dump
+				n := int64(len(c35Counts)*len(c35Offsets(c35SortedRef(s))) + 3 + len(s.ref) + 1 + 1) // listings + with-transactions + lookups + unknown + raw dump
 				c.Add("queries", n)
 				c.Eval(n)
 			}
